@@ -23,6 +23,30 @@ AXES = {
 }
 
 
+# twin axes: the same degree, number of dofs and number of matrix non-zeros, but the repeated knot sits in a
+# different place (two different 1D sparsity patterns that agree in every size)
+AXES["T1"] = (2, [0.0, 0.25, 0.5, 0.75, 1.0], [2, 1, 1])
+AXES["T2"] = (2, [0.0, 0.25, 0.5, 0.75, 1.0], [1, 1, 2])
+AXES["T3"] = (2, [0.0, 0.25, 0.5, 0.75, 1.0], [1, 2, 1])
+_OVERRIDE = {}          # dim -> list of axis names (set by drivers that need particular spaces, see use_axes)
+
+
+class use_axes:
+    """context manager: space(dim) uses the given axis names while active"""
+    def __init__(self, dim, names):
+        self.dim, self.names = dim, list(names)
+
+    def __enter__(self):
+        self.old = _OVERRIDE.get(self.dim)
+        _OVERRIDE[self.dim] = self.names
+
+    def __exit__(self, *a):
+        if self.old is None:
+            _OVERRIDE.pop(self.dim, None)
+        else:
+            _OVERRIDE[self.dim] = self.old
+
+
 def _raise(ax):
     p, br, m = AXES[ax]
     return (p + 1, br, m)
@@ -30,7 +54,7 @@ def _raise(ax):
 
 def space(dim, which=0):
     """list of (p, breaks, mults) in kvs order; which=1: the second space (degrees + 1, same meshes)"""
-    names = {1: ["B"], 2: ["A", "B"], 3: ["D", "E", "C"]}[dim]
+    names = _OVERRIDE.get(dim) or {1: ["B"], 2: ["A", "B"], 3: ["D", "E", "C"]}[dim]
     return [_raise(n) if which else AXES[n] for n in names]
 
 
